@@ -399,9 +399,17 @@ def rule_workers(ctx):
     from . import _workers as W
     for crate, fam in (("huginn_net_tcp", "tcp"), ("huginn_net_http", "http"), ("huginn_net_tls", "tls")):
         W.uniform_workers(ctx, ctx.program, crate, fam, "R8")
+        W.filter_reaches_pipeline(ctx, ctx.program, crate, fam, "R8")
+
+
+def rule_link_order(ctx):
+    """R9: filter and analyzer agree on the link-layer interpretation order"""
+    from . import _endpoints as E
+    E.link_layer_order(ctx, ctx.program, "R9", ("huginn_net_tcp", "huginn_net_http", "huginn_net_tls", "huginn_net"))
 
 
 def run(ctx):
+    rule_link_order(ctx)
     rule_siblings(ctx)
     rule_workers(ctx)
     rule_paths(ctx)
